@@ -222,12 +222,21 @@ Section Exponent.
               else if feqb (lin (bases ++ [target]) (rs ++ [c])) commit then VAccept else VReject
     end.
 
+  (* a set bit of the payload's bit vector at an index >= the message count ("padding bit"): tolerated by the code
+     as found, rejected by the repaired VerifyProof (fix 99687e9) *)
+  Definition pads_bad (v : variant) (n : nat) (mask : list bool) : bool :=
+    match v with
+    | AsIs => false
+    | Fixed => negb (forallb (fun i => i <? n) (idx_from 0 mask))
+    end.
+
   (* strict = the repair that existing tests do not admit (exact message count) *)
   Definition verify_gen (strict : bool) (v : variant) (w : F) (pf : proof) (nonce : F) (supplied : list F) : verdict :=
     let n := p_count pf in
     let hh0 := h0 w n in
     let nrev := count_true (p_mask pf) in
-    if (length supplied <? nrev) || (strict && negb (Nat.eqb (length supplied) nrev)) then VReject
+    if pads_bad v n (p_mask pf) then VReject
+    else if (length supplied <? nrev) || (strict && negb (Nat.eqb (length supplied) nrev)) then VReject
     else
       let '(rv, hidden) := vsplit (p_mask pf) (hs w n) supplied in
       let c := H (transcript (p_abar pf) (p_aprime pf) hh0 (p_c1 pf) (p_d pf) hidden (p_c2 pf)) nonce in
